@@ -1,1 +1,501 @@
-fn main() {}
+//! mdw-target: a process whose shape is dictated by a JSON scenario, used as the target of dumps.
+//!
+//!   mdw-target <scenario.json>
+//!
+//! It builds the requested threads / memory regions / files / descriptors, prints ONE line of JSON
+//! describing what it built (tids, addresses, sentinel values) followed by a line `ready`, and then
+//! obeys one-line commands on stdin: `exit <slot>` (a heartbeat thread returns), `quit`.
+//! It does not use the crate under test.
+use serde_json::{json, Value};
+use std::io::{BufRead, Write};
+use std::sync::atomic::{AtomicU64, Ordering};
+
+// ------------------------------------------------------------------ parked / spinning thread bodies
+// Table layout (u64 slots): 0 rbx, 1 rdx, 2 rsi, 3 rdi, 4 rbp, 5 r8, 6 r9, 7 r10, 8 r12, 9 r13, 10 r14, 11 r15,
+// 12 rsp (chosen stack pointer), 13 app word pointer (spin), 14..15 unused, 16.. xmm0..xmm15 (16 bytes each)
+std::arch::global_asm!(
+    ".globl mdw_parked",
+    "mdw_parked:",
+    "mov rax, rdi",
+    "movdqu xmm0, [rax + 128]",
+    "movdqu xmm1, [rax + 144]",
+    "movdqu xmm2, [rax + 160]",
+    "movdqu xmm3, [rax + 176]",
+    "movdqu xmm4, [rax + 192]",
+    "movdqu xmm5, [rax + 208]",
+    "movdqu xmm6, [rax + 224]",
+    "movdqu xmm7, [rax + 240]",
+    "movdqu xmm8, [rax + 256]",
+    "movdqu xmm9, [rax + 272]",
+    "movdqu xmm10, [rax + 288]",
+    "movdqu xmm11, [rax + 304]",
+    "movdqu xmm12, [rax + 320]",
+    "movdqu xmm13, [rax + 336]",
+    "movdqu xmm14, [rax + 352]",
+    "movdqu xmm15, [rax + 368]",
+    "mov rbx, [rax + 0]",
+    "mov rdx, [rax + 8]",
+    "mov rsi, [rax + 16]",
+    "mov rbp, [rax + 32]",
+    "mov r8,  [rax + 40]",
+    "mov r9,  [rax + 48]",
+    "mov r10, [rax + 56]",
+    "mov r12, [rax + 64]",
+    "mov r13, [rax + 72]",
+    "mov r14, [rax + 80]",
+    "mov r15, [rax + 88]",
+    "mov rsp, [rax + 96]",
+    "mov rdi, [rax + 24]",
+    "2:",
+    "mov eax, 34", // pause
+    "syscall",
+    ".globl mdw_parked_ip",
+    "mdw_parked_ip:",
+    "jmp 2b",
+    // spinner: a counter kept in rbx, in the word at [rsp] and in the application word at [r12]
+    ".globl mdw_spin",
+    "mdw_spin:",
+    "mov rax, rdi",
+    "mov r12, [rax + 104]",
+    "mov rsp, [rax + 96]",
+    "xor ebx, ebx",
+    "3:",
+    "inc rbx",
+    "mov [rsp], rbx",
+    "mov [r12], rbx",
+    "jmp 3b",
+);
+extern "C" {
+    fn mdw_parked(tbl: *const u64) -> !;
+    fn mdw_spin(tbl: *const u64) -> !;
+    static mdw_parked_ip: u8;
+}
+
+const PAGE: usize = 4096;
+
+fn mix(a: u64) -> u64 {
+    let mut z = a.wrapping_add(0x9E37_79B9_7F4A_7C15);
+    z = (z ^ (z >> 30)).wrapping_mul(0xBF58_476D_1CE4_E5B9);
+    z = (z ^ (z >> 27)).wrapping_mul(0x94D0_49BB_1331_11EB);
+    z ^ (z >> 31)
+}
+/// address-derived fill: the word at aligned address a is mix(a) with the top bits forced so that it
+/// is neither a small integer nor a plausible pointer
+fn fill_pattern(start: usize, len: usize) {
+    let mut a = start;
+    while a + 8 <= start + len {
+        let v = (mix(a as u64) | 0x8000_0000_0000_0000) & !0x0000_8000_0000_0000;
+        unsafe { (a as *mut u64).write_unaligned(v) };
+        a += 8;
+    }
+    while a < start + len {
+        unsafe { (a as *mut u8).write(mix(a as u64) as u8 | 1) };
+        a += 1;
+    }
+}
+
+unsafe fn mmap_anon(len: usize, prot: i32) -> usize {
+    let p = libc::mmap(std::ptr::null_mut(), len, prot, libc::MAP_PRIVATE | libc::MAP_ANONYMOUS, -1, 0);
+    if p == libc::MAP_FAILED {
+        eprintln!("mmap failed");
+        std::process::exit(3);
+    }
+    p as usize
+}
+
+/// [below][pages...][above]: `below`/`above` in {"guard","hole","mapped"}; returns the start of the inner pages
+unsafe fn carve(pages: usize, below: &str, above: &str, prot: i32) -> usize {
+    let total = (pages + 2) * PAGE;
+    let base = mmap_anon(total, libc::PROT_NONE);
+    let inner = base + PAGE;
+    libc::mprotect(inner as *mut _, pages * PAGE, libc::PROT_READ | libc::PROT_WRITE);
+    for (name, at) in [(below, base), (above, inner + pages * PAGE)] {
+        match name {
+            "hole" => {
+                libc::munmap(at as *mut _, PAGE);
+            }
+            "mapped" => {
+                // readable page with different permissions so the kernel does not merge the VMAs
+                libc::mprotect(at as *mut _, PAGE, libc::PROT_READ);
+            }
+            _ => {} // guard: stays PROT_NONE
+        }
+    }
+    let _ = prot;
+    inner
+}
+
+// ------------------------------------------------------------------ shared page with counters
+static SHARED: AtomicU64 = AtomicU64::new(0);
+const SLOT: usize = 64; // bytes per thread slot: heartbeat, usr1, rt, tid, exit flag
+fn slot_ptr(slot: usize, field: usize) -> *mut u64 {
+    (SHARED.load(Ordering::Relaxed) as usize + slot * SLOT + field * 8) as *mut u64
+}
+const MAXSLOTS: usize = 60;
+extern "C" fn on_signal(sig: i32) {
+    let base = SHARED.load(Ordering::Relaxed);
+    if base == 0 {
+        return;
+    }
+    let tid = unsafe { libc::syscall(libc::SYS_gettid) } as u64;
+    for s in 0..MAXSLOTS {
+        unsafe {
+            if slot_ptr(s, 3).read_volatile() == tid {
+                let f = if sig == libc::SIGUSR1 { 1 } else { 2 };
+                let p = slot_ptr(s, f);
+                p.write_volatile(p.read_volatile() + 1);
+                return;
+            }
+        }
+    }
+}
+
+fn hex(b: &[u8]) -> String {
+    b.iter().map(|x| format!("{x:02x}")).collect()
+}
+fn unhex(s: &str) -> Vec<u8> {
+    (0..s.len() / 2).map(|i| u8::from_str_radix(&s[2 * i..2 * i + 2], 16).unwrap_or(0)).collect()
+}
+
+fn main() {
+    let path = std::env::args().nth(1).unwrap_or_else(|| {
+        eprintln!("usage: mdw-target <scenario.json>");
+        std::process::exit(2)
+    });
+    let cfg: Value = serde_json::from_str(&std::fs::read_to_string(&path).expect("read scenario")).expect("scenario json");
+    let mut report = json!({"pid": std::process::id()});
+
+    // shared counters page
+    if let Some(sp) = cfg.get("shared_path").and_then(|v| v.as_str()) {
+        use std::os::unix::io::AsRawFd;
+        let f = std::fs::OpenOptions::new().read(true).write(true).create(true).open(sp).expect("shared file");
+        f.set_len(PAGE as u64).unwrap();
+        let p = unsafe { libc::mmap(std::ptr::null_mut(), PAGE, libc::PROT_READ | libc::PROT_WRITE, libc::MAP_SHARED, f.as_raw_fd(), 0) };
+        assert!(p != libc::MAP_FAILED);
+        SHARED.store(p as u64, Ordering::SeqCst);
+        unsafe {
+            let mut sa: libc::sigaction = std::mem::zeroed();
+            sa.sa_sigaction = on_signal as extern "C" fn(i32) as usize;
+            sa.sa_flags = libc::SA_RESTART;
+            libc::sigaction(libc::SIGUSR1, &sa, std::ptr::null_mut());
+            libc::sigaction(libc::SIGRTMIN() + 1, &sa, std::ptr::null_mut());
+        }
+    }
+
+    // ---- memory regions
+    let mut regions = serde_json::Map::new();
+    let mut region_addr = std::collections::HashMap::<String, (usize, usize)>::new();
+    for r in cfg.get("regions").and_then(|v| v.as_array()).cloned().unwrap_or_default() {
+        let name = r["name"].as_str().unwrap_or("r").to_string();
+        let len = r["len"].as_u64().unwrap_or(PAGE as u64) as usize;
+        let lead = r["lead"].as_u64().unwrap_or(0) as usize; // bytes between the first inner page start and the region
+        let pages = (lead + len + PAGE - 1) / PAGE;
+        let below = r["below"].as_str().unwrap_or("guard");
+        let above = r["above"].as_str().unwrap_or("guard");
+        let inner = unsafe { carve(pages.max(1), below, above, 0) };
+        fill_pattern(inner, pages.max(1) * PAGE);
+        // the region either starts `lead` bytes into the inner pages or ends exactly at their end
+        let start = if r["at_end"].as_bool().unwrap_or(false) { inner + pages.max(1) * PAGE - len } else { inner + lead };
+        if r["exec"].as_bool().unwrap_or(false) {
+            unsafe { libc::mprotect(inner as *mut _, pages.max(1) * PAGE, libc::PROT_READ | libc::PROT_EXEC) };
+        }
+        region_addr.insert(name.clone(), (start, len));
+        regions.insert(name, json!({"addr": start, "len": len, "map_start": inner, "map_len": pages.max(1) * PAGE}));
+    }
+    report["regions"] = Value::Object(regions);
+
+    // ---- open descriptors
+    let mut keep_files = Vec::new();
+    for f in cfg.get("open_files").and_then(|v| v.as_array()).cloned().unwrap_or_default() {
+        if let Some(p) = f.as_str() {
+            if let Ok(fh) = std::fs::OpenOptions::new().read(true).write(true).create(true).open(p) {
+                keep_files.push(fh);
+            }
+        }
+    }
+    for _ in 0..cfg.get("pipes").and_then(|v| v.as_u64()).unwrap_or(0) {
+        let mut fds = [0i32; 2];
+        unsafe { libc::pipe(fds.as_mut_ptr()) };
+    }
+    for _ in 0..cfg.get("sockets").and_then(|v| v.as_u64()).unwrap_or(0) {
+        unsafe { libc::socket(libc::AF_UNIX, libc::SOCK_STREAM, 0) };
+    }
+
+    // ---- file mappings
+    let mut fmaps = Vec::new();
+    for f in cfg.get("file_maps").and_then(|v| v.as_array()).cloned().unwrap_or_default() {
+        use std::os::unix::io::AsRawFd;
+        let p = f["path"].as_str().unwrap_or("");
+        let off = f["off"].as_u64().unwrap_or(0);
+        let len = f["len"].as_u64().unwrap_or(PAGE as u64) as usize;
+        let prot = if f["exec"].as_bool().unwrap_or(false) { libc::PROT_READ | libc::PROT_EXEC } else { libc::PROT_READ };
+        match std::fs::File::open(p) {
+            Ok(fh) => {
+                let a = unsafe { libc::mmap(std::ptr::null_mut(), len, prot, libc::MAP_PRIVATE, fh.as_raw_fd(), off as i64) };
+                if a == libc::MAP_FAILED {
+                    fmaps.push(json!({"path": p, "error": "mmap"}));
+                } else {
+                    fmaps.push(json!({"path": p, "addr": a as usize, "len": len, "off": off}));
+                }
+                if f["delete"].as_bool().unwrap_or(false) {
+                    let _ = std::fs::remove_file(p);
+                }
+            }
+            Err(e) => fmaps.push(json!({"path": p, "error": e.to_string()})),
+        }
+    }
+    report["file_maps"] = json!(fmaps);
+
+    // ---- synthetic linker chain (fake PHDR table, PT_DYNAMIC, DT_DEBUG, r_debug, link_map list)
+    if let Some(lc) = cfg.get("linker_chain") {
+        report["linker_chain"] = build_linker_chain(lc);
+    }
+
+    // ---- threads
+    let threads = cfg.get("threads").and_then(|v| v.as_array()).cloned().unwrap_or_default();
+    let (tx, rx) = std::sync::mpsc::channel::<(usize, Value)>();
+    for (slot, t) in threads.iter().enumerate() {
+        let t = t.clone();
+        let tx = tx.clone();
+        let region_addr = region_addr.clone();
+        std::thread::Builder::new()
+            .stack_size(64 * 1024)
+            .spawn(move || thread_main(slot, t, region_addr, tx))
+            .expect("spawn");
+    }
+    let mut treps = vec![Value::Null; threads.len()];
+    for _ in 0..threads.len() {
+        let (slot, rep) = rx.recv().expect("thread report");
+        treps[slot] = rep;
+    }
+    // give parked threads time to reach their blocking syscall
+    std::thread::sleep(std::time::Duration::from_millis(30));
+    report["threads"] = json!(treps);
+    report["main_tid"] = json!(unsafe { libc::syscall(libc::SYS_gettid) });
+    if let Some(n) = cfg.get("main_name_hex").and_then(|v| v.as_str()) {
+        set_comm(&unhex(n));
+    }
+
+    let out = std::io::stdout();
+    let mut o = out.lock();
+    writeln!(o, "{}", serde_json::to_string(&report).unwrap()).unwrap();
+    writeln!(o, "ready").unwrap();
+    o.flush().unwrap();
+    drop(o);
+
+    let stdin = std::io::stdin();
+    for line in stdin.lock().lines() {
+        let Ok(line) = line else { break };
+        let mut it = line.split_whitespace();
+        match it.next() {
+            Some("quit") => break,
+            Some("exit") => {
+                if let Some(slot) = it.next().and_then(|s| s.parse::<usize>().ok()) {
+                    unsafe { slot_ptr(slot, 4).write_volatile(1) };
+                }
+                println!("ok");
+            }
+            Some("ping") => println!("pong"),
+            _ => println!("?"),
+        }
+        let _ = std::io::stdout().flush();
+    }
+    drop(keep_files);
+    std::process::exit(0);
+}
+
+fn set_comm(name: &[u8]) {
+    let mut buf = [0u8; 17];
+    let n = name.len().min(15);
+    buf[..n].copy_from_slice(&name[..n]);
+    unsafe { libc::prctl(libc::PR_SET_NAME, buf.as_ptr() as usize, 0, 0, 0) };
+}
+
+fn thread_main(slot: usize, t: Value, regions: std::collections::HashMap<String, (usize, usize)>, tx: std::sync::mpsc::Sender<(usize, Value)>) {
+    let tid = unsafe { libc::syscall(libc::SYS_gettid) } as u64;
+    if let Some(n) = t.get("name_hex").and_then(|v| v.as_str()) {
+        set_comm(&unhex(n));
+    }
+    let mode = t["mode"].as_str().unwrap_or("pause").to_string();
+    let mut rep = json!({"slot": slot, "tid": tid, "mode": mode});
+    if SHARED.load(Ordering::Relaxed) != 0 && slot < MAXSLOTS {
+        unsafe { slot_ptr(slot, 3).write_volatile(tid) };
+    }
+    if mode == "heartbeat" {
+        tx.send((slot, rep)).unwrap();
+        loop {
+            unsafe {
+                if SHARED.load(Ordering::Relaxed) != 0 {
+                    let p = slot_ptr(slot, 0);
+                    p.write_volatile(p.read_volatile() + 1);
+                    if slot_ptr(slot, 4).read_volatile() != 0 {
+                        return; // thread exits
+                    }
+                }
+                libc::usleep(200);
+            }
+        }
+    }
+    // private stack mapping with chosen neighbours
+    let pages = t["stack_pages"].as_u64().unwrap_or(4) as usize;
+    let below = t["below"].as_str().unwrap_or("guard").to_string();
+    let above = t["above"].as_str().unwrap_or("guard").to_string();
+    let stack = unsafe { carve(pages, &below, &above, 0) };
+    fill_pattern(stack, pages * PAGE);
+    let sp_off = t["sp_off"].as_u64().unwrap_or((pages * PAGE - 256) as u64) as usize;
+    let sp = if mode == "rsp0" { 0 } else if let Some(abs) = t.get("sp_abs_below").and_then(|v| v.as_u64()) {
+        // stack pointer placed `abs` bytes BELOW the stack mapping (in the guard page / hole)
+        stack - abs as usize
+    } else {
+        stack + sp_off
+    };
+    // planted words: [slot index (in words from sp), value] ; value = number | {"region": name, "off": n}
+    let mut planted = Vec::new();
+    for w in t.get("words").and_then(|v| v.as_array()).cloned().unwrap_or_default() {
+        let at = (sp as i64 + w[0].as_i64().unwrap_or(0)) as usize; // byte offset relative to sp
+        let val: u64 = match &w[1] {
+            Value::Object(o) => {
+                let (a, _) = regions.get(o["region"].as_str().unwrap_or("")).copied().unwrap_or((0, 0));
+                (a as i64 + o.get("off").and_then(|x| x.as_i64()).unwrap_or(0)) as u64
+            }
+            Value::String(s) => u64::from_str_radix(s.trim_start_matches("0x"), 16).unwrap_or(0),
+            v => v.as_i64().map(|x| x as u64).or(v.as_u64()).unwrap_or(0),
+        };
+        if at >= stack && at + 8 <= stack + pages * PAGE {
+            unsafe { (at as *mut u64).write_unaligned(val) };
+            planted.push(json!([at, format!("{val:x}")]));
+        }
+    }
+    // sentinel table
+    let seed = t["seed"].as_u64().unwrap_or(slot as u64 + 1);
+    let tbl: &'static mut [u64; 48] = Box::leak(Box::new([0u64; 48]));
+    let names = ["rbx", "rdx", "rsi", "rdi", "rbp", "r8", "r9", "r10", "r12", "r13", "r14", "r15"];
+    let mut sent = serde_json::Map::new();
+    for (i, n) in names.iter().enumerate() {
+        tbl[i] = mix(seed * 1000 + i as u64) | 0x0100_0000_0000_0000;
+        sent.insert(n.to_string(), json!(format!("{:x}", tbl[i])));
+    }
+    tbl[12] = sp as u64;
+    if let Some((a, _)) = t.get("spin_word").and_then(|v| v.as_str()).and_then(|n| regions.get(n)) {
+        tbl[13] = *a as u64;
+    }
+    for x in 0..16 {
+        tbl[16 + 2 * x] = mix(seed * 7777 + x as u64);
+        tbl[17 + 2 * x] = mix(seed * 8888 + x as u64);
+        sent.insert(format!("xmm{x}"), json!(format!("{:016x}{:016x}", tbl[17 + 2 * x], tbl[16 + 2 * x])));
+    }
+    rep["stack_start"] = json!(stack);
+    rep["stack_len"] = json!(pages * PAGE);
+    rep["sp"] = json!(sp);
+    rep["sentinels"] = Value::Object(sent);
+    rep["planted"] = json!(planted);
+    rep["parked_ip"] = json!(unsafe { &mdw_parked_ip as *const u8 as usize });
+    rep["comm_hex"] = json!(t.get("name_hex").and_then(|v| v.as_str()).map(|s| hex(&unhex(s)[..unhex(s).len().min(15)])));
+    tx.send((slot, rep)).unwrap();
+    unsafe {
+        if mode == "spin" {
+            mdw_spin(tbl.as_ptr())
+        } else {
+            mdw_parked(tbl.as_ptr())
+        }
+    }
+}
+
+/// Builds, in this process's memory, the structures `dso_debug` walks: a program-header table with
+/// PT_PHDR/PT_LOAD/PT_DYNAMIC, a dynamic section with DT_DEBUG, an r_debug and a link_map list.
+/// cfg: {"names": ["libA", ...] | hex via "names_hex", "cyclic": bool, "dangling": bool, "no_debug": bool,
+///       "phnum_extra": n, "unterminated_dynamic": bool}
+fn build_linker_chain(lc: &Value) -> Value {
+    let area = unsafe { carve(4, "guard", "hole", 0) };
+    unsafe { std::ptr::write_bytes(area as *mut u8, 0, 4 * PAGE) };
+    let w64 = |at: usize, v: u64| unsafe { (at as *mut u64).write_unaligned(v) };
+    let w32 = |at: usize, v: u32| unsafe { (at as *mut u32).write_unaligned(v) };
+    // page 0: phdrs at +0x40 (like a real ELF), page 1: dynamic + r_debug, page 2: link_maps, page 3: names
+    let phdr = area + 0x40;
+    let dynamic = area + PAGE + 0x100;
+    let rdebug = area + PAGE + 0x800;
+    let lmaps = area + 2 * PAGE;
+    let names_at = area + 3 * PAGE;
+    // Elf64_Phdr: p_type u32, p_flags u32, p_offset, p_vaddr, p_paddr, p_filesz, p_memsz, p_align
+    let ph = |i: usize, ty: u32, off: u64, vaddr: u64, sz: u64| {
+        let at = phdr + i * 56;
+        w32(at, ty);
+        w32(at + 4, 4);
+        w64(at + 8, off);
+        w64(at + 16, vaddr);
+        w64(at + 24, vaddr);
+        w64(at + 32, sz);
+        w64(at + 40, sz);
+        w64(at + 48, 8);
+    };
+    // base = (phdr & !0xfff) - p_vaddr(of PT_LOAD with offset 0) ; we use link-time addresses = offsets from `area`
+    ph(0, 6, 0x40, 0x40, 3 * 56); // PT_PHDR
+    ph(1, 1, 0, 0, 4 * PAGE as u64); // PT_LOAD offset 0 vaddr 0
+    ph(2, 2, (dynamic - area) as u64, (dynamic - area) as u64, 0x100); // PT_DYNAMIC
+    let phnum = 3 + lc.get("phnum_extra").and_then(|v| v.as_u64()).unwrap_or(0);
+    // dynamic: DT_NEEDED(1), DT_DEBUG(21) = &r_debug, DT_NULL
+    let mut d = dynamic;
+    w64(d, 1);
+    w64(d + 8, 1);
+    d += 16;
+    if !lc.get("no_debug").and_then(|v| v.as_bool()).unwrap_or(false) {
+        w64(d, 21);
+        w64(d + 8, rdebug as u64);
+        d += 16;
+    }
+    if lc.get("unterminated_dynamic").and_then(|v| v.as_bool()).unwrap_or(false) {
+        // fill the rest of the mapped area with non-null tags so that the scan runs into the hole
+        let mut q = d;
+        while q + 16 <= area + 4 * PAGE {
+            w64(q, 0x6fff_fff0);
+            w64(q + 8, 0);
+            q += 16;
+        }
+    } else {
+        w64(d, 0);
+        w64(d + 8, 0);
+    }
+    // link maps
+    let names: Vec<Vec<u8>> = if let Some(a) = lc.get("names_hex").and_then(|v| v.as_array()) {
+        a.iter().map(|s| unhex(s.as_str().unwrap_or(""))).collect()
+    } else {
+        lc.get("names").and_then(|v| v.as_array()).map(|a| a.iter().map(|s| s.as_str().unwrap_or("").as_bytes().to_vec()).collect()).unwrap_or_default()
+    };
+    let n = names.len();
+    let mut np = names_at;
+    let mut entries = Vec::new();
+    for (i, nm) in names.iter().enumerate() {
+        let at = lmaps + i * 40;
+        let name_ptr = if nm.is_empty() { 0 } else { np };
+        if !nm.is_empty() {
+            unsafe { std::ptr::copy_nonoverlapping(nm.as_ptr(), np as *mut u8, nm.len()) };
+            np += nm.len() + 1;
+        }
+        let l_addr = 0x1000_0000u64 * (i as u64 + 1);
+        let l_ld = l_addr + 0x2000;
+        w64(at, l_addr);
+        w64(at + 8, name_ptr as u64);
+        w64(at + 16, l_ld);
+        let next = if i + 1 < n {
+            lmaps + (i + 1) * 40
+        } else if lc.get("cyclic").and_then(|v| v.as_bool()).unwrap_or(false) {
+            lmaps
+        } else if lc.get("dangling").and_then(|v| v.as_bool()).unwrap_or(false) {
+            area + 4 * PAGE + 64 // in the hole
+        } else {
+            0
+        };
+        w64(at + 24, next as u64);
+        w64(at + 32, if i > 0 { lmaps + (i - 1) * 40 } else { 0 } as u64);
+        entries.push(json!({"addr": l_addr, "ld": l_ld, "name_hex": hex(nm)}));
+    }
+    // r_debug: r_version i32, pad, r_map, r_brk, r_state i32, pad, r_ldbase
+    w32(rdebug, 1);
+    w64(rdebug + 8, if n > 0 { lmaps as u64 } else { 0 });
+    w64(rdebug + 16, 0xb4b4_0000);
+    w32(rdebug + 24, 0);
+    w64(rdebug + 32, 0x7f00_dead_0000);
+    json!({"phdr": phdr, "phnum": phnum, "dynamic": dynamic, "r_debug": rdebug, "brk": 0xb4b4_0000u64, "ldbase": 0x7f00_dead_0000u64,
+           "entries": entries, "area": area,
+           "dynamic_len": (d + 16 - dynamic)})
+}
